@@ -45,6 +45,7 @@ type Op struct {
 	Ms   int   `json:"ms,omitempty"`
 	Hold bool  `json:"hold,omitempty"` // fired callbacks are held (fired-but-not-run window)
 	N    int   `json:"n,omitempty"`    // concurrent mode: steps after starting
+	ID   int   `json:"id,omitempty"`   // stable identity
 }
 
 type Plan struct {
@@ -133,6 +134,7 @@ func Generate(r *rand.Rand, profile string, concurrent bool) *Plan {
 		if concurrent {
 			o.N = r.IntN(8)
 		}
+		o.ID = i + 1
 		p.Ops = append(p.Ops, o)
 	}
 	return p
@@ -338,16 +340,18 @@ func (mo *model) applySetList(ms []member, list []string, now time.Duration) []m
 // ---------------------------------------------------------------- run
 
 type sim struct {
-	plan  *Plan
-	k     *kern.Kernel
-	me    multiendpoint.MultiEndpoint
-	mo    *model
-	res   *simkit.Result
-	held  []*kern.Task
-	opIdx int
-	prev  string // last observed Current()
-	stop  bool
-	hist  []string
+	plan   *Plan
+	k      *kern.Kernel
+	me     multiendpoint.MultiEndpoint
+	mo     *model
+	res    *simkit.Result
+	held   []*kern.Task
+	opIdx  int
+	prev   string // last observed Current()
+	stop   bool
+	hist   []string
+	hintOp int
+	hintN  uint64
 }
 
 //go:norace
@@ -375,6 +379,7 @@ func (s *sim) vio(prop, rule, facts, msg string) {
 //
 //go:norace
 func (s *sim) call(name string, fn func()) {
+	s.hint()
 	s.k.Spawn(name, 0, nil, fn)
 	s.k.Quiesce()
 	s.kernelFailure()
@@ -827,16 +832,19 @@ func (s *sim) runConcurrent(src *simkit.Source) {
 		switch o.K {
 		case OpAvail:
 			e := universe[o.E%len(universe)]
+			s.hint()
 			s.k.Spawn("SetEndpointAvailability", 0, nil, func() { s.me.SetEndpointAvailability(e, o.Up) })
 		case OpSetList:
 			l := names(o.List)
 			if len(l) > 0 {
 				lists = append(lists, l)
 			}
+			s.hint()
 			s.k.Spawn("SetEndpoints", 0, nil, func() { _ = s.me.SetEndpoints(append([]string{}, l...)) })
 		case OpAdvance:
 			s.k.Advance(time.Duration(o.Ms) * time.Millisecond)
 		default:
+			s.hint()
 			s.k.Spawn("Current", 0, nil, func() {
 				x := s.me.Current()
 				ok := false
@@ -917,6 +925,24 @@ func (s *sim) finish() {
 	s.res.Switches, s.res.SwitchInOp = k.Switches, k.SwitchInOp
 	s.res.Log = k.Log
 	s.res.Count("ops", len(s.plan.Ops))
+}
+
+// hint gives the next spawned task a schedule-independent key derived from the
+// current operation's stable id, so that recorded scheduling decisions survive
+// the removal of other operations during shrinking.
+//
+//go:norace
+//go:norace
+func (s *sim) hint() {
+	id := uint64(1000000 + s.opIdx + 1)
+	if s.opIdx >= 0 && s.opIdx < len(s.plan.Ops) && s.plan.Ops[s.opIdx].ID != 0 {
+		id = uint64(s.plan.Ops[s.opIdx].ID)
+	}
+	if s.hintOp != s.opIdx {
+		s.hintOp, s.hintN = s.opIdx, 0
+	}
+	s.hintN++
+	s.k.KeyHint = kern.MixKey(id, s.hintN)
 }
 
 //go:norace
